@@ -484,10 +484,10 @@ func init() {
 			}
 		}
 		for _, n := range lens {
-			out = append(out, Inst{Pkg: "knx", Fn: "HarnessC12Out", Args: []int64{0, n}, Unwind: 2000},
-				// router client built by the real constructor on the redirected socket: engine-only
-				Inst{Pkg: "knx", Fn: "HarnessC12Out", Args: []int64{1, n}, Unwind: 2000, NoNative: true},
-				Inst{Pkg: "knx", Fn: "HarnessC12Out", Args: []int64{2, n}, Unwind: 2000, NoNative: true, Ctx: 2, Note: "group tunnel built by the real NewGroupTunnel against a scripted gateway"},
+			out = append(out, Inst{Pkg: "knx", Fn: "HarnessC12OutWB", Args: []int64{n}, Unwind: 2000, Note: "white box: GroupTunnel on a directly constructed TCP-mode tunnel"},
+				// clients built by the real constructors on the redirected sockets: engine-only
+				Inst{Pkg: "knx", Fn: "HarnessC12Out", Args: []int64{1, n}, Unwind: 2000, NoNative: true, Note: "NewGroupRouter"},
+				Inst{Pkg: "knx", Fn: "HarnessC12Out", Args: []int64{2, n}, Unwind: 2000, NoNative: true, Ctx: 2, Note: "NewGroupTunnel against a scripted gateway"},
 				Inst{Pkg: "knx", Fn: "HarnessC12E2E", Args: []int64{n}, Unwind: 2000, NoNative: true})
 		}
 		for kind := int64(0); kind <= 10; kind++ {
@@ -495,8 +495,15 @@ func init() {
 				out = append(out, Inst{Pkg: "knx", Fn: "HarnessC12In", Args: []int64{kind, n}})
 			}
 		}
+		for client := int64(0); client < 2; client++ {
+			for code := int64(0); code < 16; code++ {
+				for grp := int64(0); grp < 2; grp++ {
+					out = append(out, Inst{Pkg: "knx", Fn: "HarnessC12InBB", Args: []int64{client, code, grp, 2}, NoNative: true, Ctx: 2, Note: "indication entering through the socket of a constructor-built client"})
+				}
+			}
+		}
 		for _, p := range [][2]int64{{15, 16}, {16, 15}, {0, 254}, {254, 1}} {
-			out = append(out, Inst{Pkg: "knx", Fn: "HarnessC12OutSeq", Args: []int64{0, p[0], p[1]}, Unwind: 2000, NoNative: true},
+			out = append(out, Inst{Pkg: "knx", Fn: "HarnessC12OutSeqWB", Args: []int64{p[0], p[1]}, Unwind: 2000, NoNative: true},
 				Inst{Pkg: "knx", Fn: "HarnessC12OutSeq", Args: []int64{1, p[0], p[1]}, Unwind: 2000, NoNative: true},
 				Inst{Pkg: "knx", Fn: "HarnessC12OutSeq", Args: []int64{2, p[0], p[1]}, Unwind: 2000, NoNative: true, Ctx: 2})
 		}
@@ -506,8 +513,8 @@ func init() {
 		ID:       "C12",
 		Quick:    func(l *loaded) []Inst { return c12(false) },
 		Thorough: func(l *loaded) []Inst { return c12(true) },
-		Covers:   []string{"C12.out.end", "C12.in.surfaced", "C12.in.filtered", "C12.e2e.end", "C12.outseq.end"},
-		Bounds:   "outbound: all three commands, every source/destination/payload byte symbolic, payload lengths {0,1,2,15,16,254} (thorough 0..254), through GroupTunnel.Send (TCP-mode tunnel on the in-memory socket, and a UDP group tunnel built by the real NewGroupTunnel against a scripted gateway) and through GroupRouter.Send of a client built by the real NewGroupRouter (socket constructor redirected; the datagram bytes written are decoded again, so the first payload byte is compared in its low six bits and an empty payload as one zero byte); inbound: one message of every cEMI kind (L_Data req/con/ind with application or control unit, L_Raw x3, L_Busmon, unsupported) with all fields symbolic fed to the real serveGroupInbound goroutine, all interleavings of the three goroutines; end to end through knxnet.Pack/Unpack",
+		Covers:   []string{"C12.out.end", "C12.outwb.end", "C12.in.surfaced", "C12.in.filtered", "C12.inbb.surfaced", "C12.inbb.filtered", "C12.e2e.end", "C12.outseq.end", "C12.outseqwb.end"},
+		Bounds:   "outbound: all three commands, every source/destination/payload byte symbolic, payload lengths {0,1,2,15,16,254} (thorough 0..254), through GroupTunnel.Send (TCP-mode tunnel on the in-memory socket, and a UDP group tunnel built by the real NewGroupTunnel against a scripted gateway) and through GroupRouter.Send of a client built by the real NewGroupRouter (socket constructor redirected; the datagram bytes written are decoded again, so the first payload byte is compared in its low six bits and an empty payload as one zero byte); inbound: one message of every cEMI kind (L_Data req/con/ind with application or control unit, L_Raw x3, L_Busmon, unsupported) with all fields symbolic fed to the real serveGroupInbound goroutine, all interleavings of the three goroutines; the same filter through the sockets of clients built by NewGroupRouter / NewGroupTunnel for all 16 application codes x group/individual destination; end to end: bytes written by a group router client delivered to a group router client's socket, incl. closing of the group channel",
 		Outside:  "payloads above 254 bytes; more than one message per inbound run (ordering is C17)",
 	})
 
@@ -595,10 +602,14 @@ func init() {
 
 	c17 := func(maxK int64) []Inst {
 		var out []Inst
-		for client := int64(0); client < 7; client++ {
+		for client := int64(0); client < 8; client++ {
+			fn := "HarnessC17" // white box: 0 pushInbound, 2 serveGroupInbound, 3/4 handleTunnelReq UDP/TCP
+			if client == 1 || client >= 5 {
+				fn = "HarnessC17BB" // constructor-built: 1 NewRouter, 5/6 NewTunnel UDP/TCP, 7 NewGroupTunnel
+			}
 			for k := int64(2); k <= maxK; k++ {
 				for mode := int64(0); mode < 4; mode++ {
-					out = append(out, Inst{Pkg: "knx", Fn: "HarnessC17", Args: []int64{client, k, mode}})
+					out = append(out, Inst{Pkg: "knx", Fn: fn, Args: []int64{client, k, mode}})
 				}
 			}
 		}
@@ -610,7 +621,7 @@ func init() {
 		Quick:    func(l *loaded) []Inst { return c17(3) },
 		Thorough: func(l *loaded) []Inst { return c17(5) },
 		Covers:   []string{"C17.end"},
-		Bounds:   "tunnel client (pushInbound directly, through handleTunnelReq in UDP and TCP mode, and a client built by the real NewTunnel fed through its socket in UDP and TCP mode), router client (built by the real NewRouter, fed through its socket) and the group layer; bursts of 2..3 (thorough ..5) accepted telegrams; consumer always waiting, absent for the whole burst, taking one telegram and then stalling, or resuming in the middle of the burst; every interleaving of the server side, the parked delivery goroutines and the consumer",
+		Bounds:   "tunnel client (pushInbound directly, through handleTunnelReq in UDP and TCP mode, and a client built by the real NewTunnel fed through its socket in UDP and TCP mode), router client (built by the real NewRouter, fed through its socket) and the group layer (serveGroupInbound on a plain channel, and a group tunnel built by NewGroupTunnel); bursts of 2..3 (thorough ..5) accepted telegrams; consumer always waiting, absent for the whole burst, taking one telegram and then stalling, or resuming in the middle of the burst; every interleaving of the server side, the parked delivery goroutines and the consumer",
 		Outside:  "bursts longer than 5; the runtime's FIFO order among senders that are already blocked is not modelled (any blocked sender may be served), which only adds schedules",
 		Assume:   []string{"the pinned tree reordered overflowed telegrams (per-telegram goroutines); repaired by the fix: commit recorded in known_findings.json, so all consumer behaviours are enforced now"},
 	})
